@@ -179,7 +179,7 @@ class EMut(Engine):
                        'cache_clear', 'option:bytealigned-decided-replace', 'overwrite:extends', 'replace:overlap-skipped',
                        'replace:multi', 'byteswap:repeats>1', 'byteswap:struct-string', 'setslice:int-limit',
                        'setslice:negative-step', 'len:crosses-64', 'run:nofault', 'run:fault', 'run:avoid',
-                       'cls:BitArray', 'cls:BitStream', 'insert:from-end', 'shift:beyond-len', 'rotate:subrange', 'run:lsb0', 'observe')
+                       'cls:BitArray', 'cls:BitStream', 'insert:from-end', 'shift:beyond-len', 'rotate:subrange', 'run:lsb0', 'observe', 'lazy:make', 'lazy:step', 'assign:bytes')
 
     # ---------------------------------------------------------------------------------------------------
     def plan(self, tier, base_seed):
@@ -228,6 +228,7 @@ class EMut(Engine):
         self.B.options.bytealigned = self.ba
         self.lsb0 = bool(cfg.get('lsb0', False))
         self._mirror = False
+        self.gens = {}
         if self.lsb0:
             self.B.options.lsb0 = True
             self.probe('run:lsb0')
@@ -1014,7 +1015,7 @@ class EMut(Engine):
             elif t == 'range':
                 f = range(fmt.get('a', 0), fmt.get('b', 0))
             elif t == 'float':
-                f = 1.5
+                f = float(fmt.get('x', 1.5)) if isinstance(fmt.get('x', 1.5), (int, float)) else 1.5
             else:
                 f = list(fmt.get('ns', []))
             a, b, rep = ev.get('start'), ev.get('end'), bool(ev.get('repeat', True))
@@ -1040,6 +1041,10 @@ class EMut(Engine):
             return self._ev_option(ev)
         if k == 'observe':
             return self._ev_observe(ev)
+        if k == 'lazy':
+            return self._ev_lazy(ev)
+        if k == 'assign':
+            return self._ev_assign(ev)
         if k in ('op', 'reject', 'pfault') and isinstance(ev.get('op'), str):
             return self._ev_op(ev)
         return {'skip': str(k)}, []
@@ -1108,6 +1113,63 @@ class EMut(Engine):
             incs.append(self.inc(f'observe:{ev.get("what")}|-|observer-changed-the-content', want=self.M[:200], got=got[:200]))
             self.s = self._build(self.M)
         return {'same': o1 == o2}, incs
+
+    def _ev_lazy(self, ev):
+        """A generator the library hands out over the subject (findall / cut / split / iteration) is made, stepped or dropped between
+        two mutations.  Being suspended it holds nothing of the subject: the mutators that follow behave as if it were not there."""
+        what = ev.get('what')
+        slot = int(ev.get('slot', 0)) % 3 if isinstance(ev.get('slot', 0), int) else 0
+        gens = self.gens
+        self.probe('lazy:' + str(what))
+        if what == 'make':
+            bits = ''.join(c for c in str(ev.get('bits', '1')) if c in '01') or '1'
+            kind = ev.get('kind')
+            ba = ev.get('ba') if ev.get('ba') in (None, True, False) else None
+            st, gobj = call(lambda: self.s.findall('0b' + bits, bytealigned=ba) if kind == 'findall' else self.s.cut(max(len(bits), 1)) if kind == 'cut'
+                            else self.s.split('0b' + bits, bytealigned=ba) if kind == 'split' else iter(self.s))
+            if st == 'ok':
+                gens[slot] = gobj
+        elif what == 'step' and slot in gens:
+            st, _ = call(next, gens[slot])
+            if st != 'ok':
+                gens.pop(slot, None)
+        elif what == 'close' and slot in gens:
+            call(getattr(gens.pop(slot), 'close', lambda: None))
+        got = self._bin()
+        incs = []
+        if got != self.M:
+            incs.append(self.inc(f'lazy:{what}|-|content-mismatch', want=self.M[:200], got=got[:200]))
+            self.s = self._build(self.M)
+            self.gens = {}
+        return {'live': len(gens)}, incs
+
+    def _ev_assign(self, ev):
+        """The whole content is replaced through a property (s.bytes = ..., s.hex = ..., s.bin = ..., s.uint = ...): not one of the
+        listed mutators, but where their subject often comes from - the mutators that follow must find an ordinary, writable value."""
+        via = ev.get('via')
+        bits = ''.join(c for c in str(ev.get('bits', '')) if c in '01')
+        reps = ev.get('reps', 1) if isinstance(ev.get('reps', 1), int) and 1 <= ev.get('reps', 1) <= 6000 else 1
+        bits = bits * reps
+        if via == 'bytes' and len(bits) % 8 == 0:
+            st, r = call(setattr, self.s, 'bytes', int(bits, 2).to_bytes(len(bits) // 8, 'big') if bits else b'')
+        elif via == 'hex' and len(bits) % 4 == 0 and bits:
+            st, r = call(setattr, self.s, 'hex', format(int(bits, 2), f'0{len(bits) // 4}x'))
+        elif via == 'uint' and bits and len(self.M) >= 1 and len(bits) <= len(self.M):
+            bits = bits.rjust(len(self.M), '0')
+            st, r = call(setattr, self.s, 'uint', int(bits, 2))
+        else:
+            if not bits:
+                return {'skip': 'empty'}, []
+            st, r = call(setattr, self.s, 'bin', bits)
+        self.probe('assign:' + str(via))
+        incs = []
+        got = self._bin()
+        if st != 'ok' or got != bits:
+            incs.append(self.inc(f'assign:{via}|-|' + ('raised:' + type(r).__name__ if st != 'ok' else 'content-mismatch'), n=len(bits)))
+            self.s = self._build(bits)
+        self.M = bits
+        self.gens = {}
+        return {'st': st, 'n': len(bits)}, incs
 
     def _ev_cache(self, ev):
         self.R.clear_caches()
@@ -1355,7 +1417,7 @@ class EMut(Engine):
             t = fmt.get('t')
             ns = fmt.get('ns', [])
             f = {'none': 'None', 'int': str(fmt.get('n')), 'str': repr(fmt.get('s')), 'tuple': repr(tuple(ns)),
-                 'faulty': f'F({ns!r}, {fmt.get("k")!r})', 'iter': f'iter({ns!r})', 'float': '1.5',
+                 'faulty': f'F({ns!r}, {fmt.get("k")!r})', 'iter': f'iter({ns!r})', 'float': repr(float(fmt.get('x', 1.5))) if isinstance(fmt.get('x', 1.5), (int, float)) else '1.5',
                  'range': f'range({fmt.get("a", 0)}, {fmt.get("b", 0)})'}.get(t, repr(ns))
             return f's.byteswap({f}, {ev.get("start")}, {ev.get("end")}, repeat={bool(ev.get("repeat", True))})'
         if op in ('ilshift', 'irshift', 'imul'):
@@ -1409,6 +1471,14 @@ class EMut(Engine):
         if r < cfg['p_cache'] + cfg['p_opt']:
             return {'k': 'option', 'name': 'bytealigned', 'value': g.chance(0.5)}
         n = len(self.M)
+        if cfg['fault'] and r > 0.93:
+            if r > 0.985:
+                # (one run in a while on a value of a few KiB handed over as one bytes object)
+                big = g.chance(0.15)
+                return {'k': 'assign', 'via': g.pick(['bytes', 'bytes', 'hex', 'bin', 'uint']), 'bits': g.bits(8 * g.int(1, 6)), 'reps': g.pick([683, 1024, 1366]) if big else 1}
+            return {'k': 'lazy', 'what': g.pick(['make', 'make', 'step', 'step', 'step', 'close']), 'kind': g.pick(['findall', 'findall', 'cut', 'split', 'iter']),
+                    'bits': (self.M[g.int(0, max(n - 8, 0)):][:8 * g.int(1, 2)] if (n >= 8 and g.chance(0.7)) else g.bits(g.pick([1, 3, 8, 16]))) or '1', 'ba': g.pick([None, True, True, False]),
+                    'slot': g.int(0, 2)}
         if r < cfg['p_cache'] + cfg['p_opt'] + 0.12:
             # an observer on the mutated object and on a brand-new object of the same bits: the object holds exactly that
             # sequence for every reader, not only for .bin (nothing derived from an earlier content may survive a mutation)
@@ -1682,8 +1752,9 @@ class EMut(Engine):
             elif g.chance(0.12):
                 a = g.int(0, 3)
                 fmt = {'t': 'range', 'a': a, 'b': a + g.int(0, 3)}
-            elif g.chance(self.cfg['p_wild'] * 0.05):
-                fmt = {'t': 'float'}
+            elif g.chance(self.cfg['p_wild'] * 0.25):
+                # a float is no documented format - also when it equals an integer that was a format a moment ago
+                fmt = {'t': 'float', 'x': g.pick([1.0, 2.0, 2.0, 3.0, 4.0, 1.5])}       # (0.0 is falsy and taken for 'no format': an undocumented type, no verdict)
             else:
                 fmt = {'t': g.pick(['list', 'list', 'tuple', 'iter']), 'ns': ns}
         return {'fmt': fmt, 'start': a, 'end': b, 'repeat': not g.chance(0.35)}
